@@ -57,12 +57,20 @@ def _kill_workers() -> None:
             pass
 
 
+def _local(case: Dict[str, Any]) -> Dict[str, Any]:
+    """Evaluate in this process; like the workers, report an exception of the code under test as data."""
+    try:
+        return c07_worker.evaluate(case)
+    except Exception as e:  # noqa: BLE001 - judged by run_case (internal-error)
+        return {"error": f"{type(e).__name__}: {e}"[:500]}
+
+
 def _ask_all(case: Dict[str, Any]) -> Dict[str, Any]:
     line = json.dumps(case) + "\n"
     for p in _workers:
         p.stdin.write(line)  # type: ignore[union-attr]
         p.stdin.flush()  # type: ignore[union-attr]
-    out: Dict[str, Any] = {"hs0": c07_worker.evaluate(case)}
+    out: Dict[str, Any] = {"hs0": _local(case)}
     for p in _workers:
         rep = p.stdout.readline()  # type: ignore[union-attr]
         if not rep:
@@ -130,7 +138,7 @@ def run_case(case: Dict[str, Any]) -> CaseResult:
     deps = gen.deps_of(P)
     res.nontrivial = gen.n_paths_max(deps) > 1
     use_workers = bool(_workers) and not case.get("inproc")
-    replies = _ask_all(case) if use_workers else {"hs0": c07_worker.evaluate(case)}
+    replies = _ask_all(case) if use_workers else {"hs0": _local(case)}
     res.evals = len(replies)
     base = replies["hs0"]
     for k, r in replies.items():
@@ -157,6 +165,7 @@ def run_case(case: Dict[str, Any]) -> CaseResult:
             cls.append("debug-site-in-subgraph")
     if case.get("reconf") is not None:
         cls.append("reconf")
+        cls.append("reconf-via-" + case.get("reconf_via", "dict"))
     if case.get("final_ops"):
         cls.append("table-reread-after-setup-ops")
     if "tc" in base:
@@ -192,6 +201,7 @@ def cases(draw: Any) -> Dict[str, Any]:
     if "reconf" in mode:
         some = draw(st.lists(st.sampled_from(sites), min_size=1, max_size=len(sites), unique=True))
         case["reconf"] = {s: draw(st.integers(-4, 9)) for s in some}
+        case["reconf_via"] = draw(st.sampled_from(["dict", "dict", "yaml", "json"]))
     if "sel" in mode:
         kind = draw(st.sampled_from(["T", "X", "R"]))
         deps = gen.deps_of(P)
